@@ -898,7 +898,7 @@ func TestEngine(t *testing.T) {
 		Name: "reqsim",
 		Body: body,
 		Rule: func(string) string {
-			return "one run = one origin O (name from DNS names / names with ports / IPv4 / bracketed IPv6; 1-3 published key ids, optional earlier rotation, tape-chosen valid_until horizon) and one destination D (1-3 local names, fixed destination or isLocalServerName callback; real KeyRing over an in-memory KeyDatabase (empty or seeded earlier) and a fetcher answering from the ledger (up / error / empty), or the ledger verifier); O signs one request (GET/PUT/POST/DELETE x path/query/escape pool x JSON body or none; single or double signature; built directly, through federationClient.DoRequestAndParseResponse, or by a client API method) which the sim transport delivers after a tape-chosen latency (0..31 d, O may rotate in flight) as the client's *http.Request object or re-parsed from HTTP/1.1 bytes, after 0-2 transit transformations of which at most one is a single-field fault; optionally delivered twice; non-trivial = at least one transformation, key event (rotation, stale/expired cache entry, negative validity) or duplicate fired; distinct = distinct event-log hash"
+			return "one run = one origin O (name from DNS names / names with ports / IPv4 / bracketed IPv6; 1-3 published key ids, optional earlier rotation, tape-chosen valid_until horizon) and one destination D (1-3 local names, fixed destination or isLocalServerName callback; real KeyRing over an in-memory KeyDatabase (empty or seeded earlier) and a fetcher answering from the ledger (up / error / empty), or the ledger verifier); O signs one request (GET/PUT/POST/DELETE x path/query/escape pool x JSON body or none; single or double signature; built directly, through federationClient.DoRequestAndParseResponse, or by a client API method) which the sim transport delivers after a tape-chosen latency (0..31 d, O may rotate in flight) as the client's *http.Request object or re-parsed from HTTP/1.1 bytes, after 0-2 transit transformations of which at most one is a single-field fault (benign ones include other headers and Authorization schemes, header case / order, whitespace the credentials grammar allows, and the body framed without a declared length - chunked on the wire, ContentLength -1 in the object); optionally delivered twice; non-trivial = at least one transformation, key event (rotation, stale/expired cache entry, negative validity) or duplicate fired; distinct = distinct event-log hash"
 		},
 		Real: []string{"fclient.NewFederationRequest/SetContent/Sign/HTTPRequest", "fclient.NewFederationClient + WithTransport (DoRequestAndParseResponse, SendTransaction, LookupProfile, GetEvent, ClaimKeys, MakeJoin)", "fclient.VerifyHTTPRequest / ParseAuthorization", "gomatrixserverlib.KeyRing.VerifyJSONs + StrictValiditySignatureCheck", "SignJSON / VerifyJSON / CanonicalJSON", "spec.ParseAndValidateServerName", "net/http request parsing (wire mode)"},
 		Stub: []string{"http.RoundTripper (sim transport: latency, transit transformations, duplicate delivery)", "KeyDatabase (in-memory map, optional errors)", "KeyFetcher (answers O's published keys at the simulated instant; error / empty modes)", "world.Verifier (ledger configuration)", "wall clock (testing/synctest)"},
